@@ -218,9 +218,12 @@ func (rp *Republisher) run(ctx context.Context, timeoutShort, timeoutLong time.D
 			}
 			lastPublished = toPublish
 			toPublish = cid.Undef
-			// Resume reading waiters,
-			immediatePublish = rp.immediatePublish
 		}
+		// Nothing is pending any more: the value was published, or it went
+		// back to the already published one while a retry was pending. Resume
+		// reading waiters in both cases, otherwise WaitPub and Close block
+		// until some later value happens to be published.
+		immediatePublish = rp.immediatePublish
 
 		// 3. Notify anything waiting in `WaitPub` on successful call to
 		// pubfunc or if nothing to publish.
